@@ -30,7 +30,7 @@ _locked = {}
 
 
 def required(tier):
-    return ['spec-TP', 'spec-H', 'spec-S', 'vapour-fraction', 'independent-reflash', 'phase-boundary', 'iso-fugacity', 'raoult-rr', 'scaling', 'single-component', 'with-inerts', 'spec-xy',
+    return ['spec-TP', 'spec-H', 'spec-S', 'vapour-fraction', 'independent-reflash', 'phase-boundary', 'iso-fugacity', 'raoult-rr', 'scaling', 'single-component', 'with-inerts', 'spec-xy', 'two-packages',
             # coverage audit
             'single:PH', 'single:PS', 'single:TH', 'single:TS', 'single:at-Psat', 'single+gas:H/S', 'V-spec:any-kind', 'boundary:P=P_bubble', 'boundary:P=P_dew', 'raoult-rr:with-gas', 'with-inerts:gas-and-solute',
             'initial-distribution', 'chained', 'method:shgo/inside']
@@ -209,6 +209,27 @@ def run_case(case, rec):
                 g = s.imol['g'].to_array()[vidx]; l = s.imol['l'].to_array()[vidx]
                 dev = float(max(np.abs(g - exp_g).max(), np.abs(l - exp_l).max()) / F)
                 rec.check(dev <= 1e-6, 'raoult-rr', 'TP', f'ideal-package flash differs from the Raoult Rachford-Rice split by {dev:.3g} of the feed (V model {V!r}, V flash {V_tp!r}; {ids}, z={z.tolist()}, T={T0}, P={P0})', residual=dev)
+        # ---- two property packages over the same chemical objects in one process (the solvers cache bubble / dew point objects per package): the ideal-package
+        #      flash right after the activity-coefficient one must still be the Raoult split, and the activity-coefficient flash after that must repeat itself
+        if kind in ('family', 'any') and not case['inert'] and okTP and case.get('xpkg', True):
+            thi = thermo(ids, ideal=True)
+            z = np.array(case['x']); cs = [thi.chemicals[i] for i in case['ids']]
+            si = make(case, thi)
+            if flash(si, T=T0, P=P0):
+                rec.hit('two-packages')
+                K = np.array([c_.Psat(T0) for c_ in cs]) / P0
+                V = raoult_rr(z, K); F = case['F']
+                xl = z / (1 + V * (K - 1)); yv = K * xl
+                exp_g = V * F * yv if V > 0 else np.zeros_like(z); exp_l = (1 - V) * F * xl if V < 1 else np.zeros_like(z)
+                if V in (0.0, 1.0): exp_g, exp_l = (z * F * V, z * F * (1 - V))
+                vi = [thi.chemicals.index(i) for i in case['ids']]
+                g = si.imol['g'].to_array()[vi]; l = si.imol['l'].to_array()[vi]
+                dev = float(max(np.abs(g - exp_g).max(), np.abs(l - exp_l).max()) / F)
+                rec.check(dev <= 1e-6, 'raoult-rr', 'TP/after-activity-package', f'ideal-package flash run right after the activity-coefficient package on the same chemicals differs from the Raoult Rachford-Rice split by {dev:.3g} of the feed ({ids}, z={z.tolist()}, T={T0}, P={P0})', residual=dev)
+                sd = make(case, th)
+                if flash(sd, T=T0, P=P0):
+                    a_ = np.array([r.to_array() for r in s.imol.data.rows]); b_ = np.array([r.to_array() for r in sd.imol.data.rows])
+                    rec.check(np.allclose(a_, b_, rtol=0, atol=1e-9 * F), 'independent-reflash', 'TP/after-ideal-package', f'the activity-coefficient T-P flash on {ids} gives another split after the ideal package was used on the same chemicals (max deviation {np.abs(a_ - b_).max() / F:.3g} of the feed)')
         # ---- single component: T/V and P/V specifications put the stream on the saturation line
         if kind == 'single' and not case['inert']:
             c = chems[case['ids'][0]]
